@@ -1547,6 +1547,21 @@ int32_t tls13ParseServerHello(ssl_t *ssl,
         ssl->err = SSL_ALERT_ILLEGAL_PARAMETER;
         return MATRIXSSL_ERROR;
     }
+    /* RFC 8446, 4.2.11: the client MUST verify that the server selected a
+       cipher suite indicating a Hash associated with the selected PSK.
+       Otherwise the key schedule below would run on the Early Secret
+       buffer of the other hash, which was never derived (all zero): every
+       secret of the handshake would be computable without the PSK. */
+    if (ssl->sec.tls13UsingPsk &&
+            (ssl->sec.tls13ChosenPsk == NULL ||
+             tls13GetPskHmacAlg(ssl->sec.tls13ChosenPsk) !=
+             tls13CipherIdToHmacAlg(ssl->cipher->ident)))
+    {
+        psTraceErrr("Server selected a PSK that is not compatible " \
+                "with the cipher suite\n");
+        ssl->err = SSL_ALERT_ILLEGAL_PARAMETER;
+        return MATRIXSSL_ERROR;
+    }
 
     return MATRIXSSL_SUCCESS;
 }
